@@ -11,8 +11,10 @@ package main
 //           obs = per op: IsSpam verdict 0/1 | (counter of every source after the round, -1 = no entry)
 //           predicate: the residual-aware ban-onset statement, exceptions/disabled never, unban
 //  which=2  as which=1, predicate: the property's own wording of ban onset (known finding)
-//  which=3  case = (max cutoff mark dec T U nsrc (op ...)),  dec 0 raw | 1 json
+//  which=3  case = (max cutoff mark dec T U nsrc (op ...)),  dec 0 raw | 1 json | 2 cri
 //             op = (0) antispam Maintenance | (1 id isNew cur soff #record valid)
+//             valid 0 garbage | 1 well-formed (cri: full row) | 2 cri partial row; soff is the saved
+//             offset of every stream name (stdout, stderr and "" — the last one must be ignored)
 //           obs = per op: (0) In returned 0 | (1 #payload mark) delivered | (2) panic | (3) accepted
 //                 but never delivered;  Maintenance: (counters)
 
@@ -248,6 +250,9 @@ func c20Pipeline(cs hx.Sx) hx.Sx {
 	if dec == 1 {
 		s.Decoder = "json"
 	}
+	if dec == 2 {
+		s.Decoder = "cri"
+	}
 	s.Antispam.Threshold = T
 	c20PipeSeq++
 	p := pipeline.New("c20_in_"+strconv.Itoa(c20PipeSeq), s, prometheus.NewRegistry(), zap.NewNop())
@@ -270,8 +275,12 @@ func c20Pipeline(cs hx.Sx) hx.Sx {
 			o.mark = n.AsBool()
 			n.Suicide()
 		}
-		if dec == 0 {
-			if n := e.Root.Dig("message"); n != nil {
+		if dec == 0 || dec == 2 {
+			field := "message"
+			if dec == 2 {
+				field = "log"
+			}
+			if n := e.Root.Dig(field); n != nil {
 				o.payload = append([]byte(nil), n.AsString()...)
 			} else {
 				o.payload = []byte("NO-MESSAGE-FIELD")
@@ -304,7 +313,7 @@ func c20Pipeline(cs hx.Sx) hx.Sx {
 		isNew := hx.Truth(o[2])
 		cur, soff := hx.Int(o[3]), hx.Int(o[4])
 		rec := hx.Bytes(o[5])
-		offs := pipeline.NewOffsets(cur, pipeline.SliceFromMap(map[pipeline.StreamName]int64{"": soff}))
+		offs := pipeline.NewOffsets(cur, pipeline.SliceFromMap(map[pipeline.StreamName]int64{"": soff, "stdout": soff, "stderr": soff}))
 		var seq uint64
 		if msg := hx.Catch(func() {
 			seq = p.In(pipeline.SourceID(id+1), "src"+strconv.Itoa(id), offs, rec, isNew, nil)
@@ -640,7 +649,10 @@ func c20Gen(c *hmain.Ctx) {
 	for i := 0; i < 150*c.Scale; i++ {
 		max := hx.Pick(r, []int{0, 9, 12, 16, 20})
 		cutoff, mark := r.Bool(), r.Bool()
-		dec := r.Intn(2)
+		dec := r.Intn(3)
+		if dec == 2 {
+			max = hx.Pick(r, []int{0, 41, 44, 50, 64}) // a cut keeps the 40-byte row header
+		}
 		T := hx.Pick(r, []int{-1, -1, 0, 3, 5, 8})
 		if r.Chance(1, 40) {
 			max = -2
@@ -654,13 +666,35 @@ func c20Gen(c *hmain.Ctx) {
 				continue
 			}
 			var b []byte
-			valid := true
-			if dec == 1 {
+			valid := 1
+			if dec == 2 {
+				// <30-byte time> SP std(out|err) SP (F|P) SP log
+				k := r.Intn(16)
+				if max > 0 && r.Chance(1, 2) {
+					k = max - 40 + r.Range(-2, 2)
+				}
+				if r.Chance(1, 8) {
+					valid = 0 // no space at all: DecodeCRI fails on it and on every prefix
+					b = bytes.Repeat([]byte{'x'}, 30+k)
+				} else {
+					b = []byte("2016-10-06T00:17:09.669794202Z ")
+					b = append(b, hx.Pick(r, []string{"stdout ", "stderr "})...)
+					if r.Chance(1, 4) {
+						valid = 2
+						b = append(b, "P "...)
+					} else {
+						b = append(b, "F "...)
+					}
+					for ; k > 0; k-- {
+						b = append(b, "abcdefgh {}\""[r.Intn(12)])
+					}
+				}
+			} else if dec == 1 {
 				// {"m":"aaa"} is 8 + k bytes
 				k := r.Intn(14)
 				b = append([]byte(`{"m":"`), bytes.Repeat([]byte{'a'}, k)...)
 				if r.Chance(1, 8) {
-					valid = false // never closed: no prefix of it is a JSON value
+					valid = 0 // never closed: no prefix of it is a JSON value
 				} else {
 					b = append(b, `"}`...)
 				}
@@ -678,12 +712,14 @@ func c20Gen(c *hmain.Ctx) {
 			}
 			if r.Chance(1, 25) {
 				b = []byte("\n")[:r.Intn(2)]
-				valid = false
+				valid = 0
 			}
 			cur := int64(r.Range(0, 50))
 			soff := int64(-1)
 			if r.Chance(1, 4) {
 				soff = int64(r.Range(0, 60))
+			} else if r.Chance(1, 3) {
+				soff = cur + int64(r.Range(-1, 1)) // the boundary of currentOffset < streamOffset
 			}
 			switch {
 			case len(b) <= 1:
@@ -692,12 +728,14 @@ func c20Gen(c *hmain.Ctx) {
 				c.W.Count("pipeline-op:oversize-cut")
 			case max > 0 && len(b) > max:
 				c.W.Count("pipeline-op:oversize-nocut")
+			case soff > 0 && cur < soff && dec == 2:
+				c.W.Count("pipeline-op:committed-offset-cri")
 			case soff > 0 && cur < soff:
-				c.W.Count("pipeline-op:committed-offset")
+				c.W.Count("pipeline-op:committed-offset-not-cri")
 			default:
 				c.W.Count("pipeline-op:plain")
 			}
-			ops = append(ops, hx.L(hx.I(1), hx.I(r.Intn(nsrc)), hx.Bool(r.Chance(1, 30)), hx.Z(cur), hx.Z(soff), hx.B(b), hx.Bool(valid)))
+			ops = append(ops, hx.L(hx.I(1), hx.I(r.Intn(nsrc)), hx.Bool(r.Chance(1, 30)), hx.Z(cur), hx.Z(soff), hx.B(b), hx.I(valid)))
 		}
 		c.Do("pipeline-in", 3, hx.L(hx.I(max), hx.Bool(cutoff), hx.Bool(mark), hx.I(dec), hx.I(T),
 			hx.I(pipeline.VerifC20UnbanIterations), hx.I(nsrc), hx.L(ops...)), true)
